@@ -231,9 +231,12 @@ example : Dec.decodeBytes (encode ex1 ++ [0xaa]) = some (ex1, [0xaa]) :=
 set_option maxRecDepth 8192 in
 example : Dec.decodeBytes [0xd9, 0x00, 0x79, 0x9f, 0x5f, 0x41, 0x07, 0x40, 0xff, 0x1b, 0, 0, 0, 0, 0, 0, 0, 5, 0xff] =
     some (.constr 121 none false [.bytes [7], .int (.int 5)], []) := by rfl
--- the tag-102 leniency of the Rust (`d.array()?` ignores the length): accepted by the byte-level
--- decoder, rejected by the strict tree decoder
-example : Dec.decodeBytes [0xd8, 0x66, 0x83, 0x00, 0x80, 0x05] = some (.constr 102 (some 0) true [], [0x05]) := by rfl
+-- tag 102: a definite array of exactly two items or an indefinite one closed by its break; other
+-- lengths are rejected by both decoders
+example : Dec.decodeBytes [0xd8, 0x66, 0x9f, 0x00, 0x80, 0xff, 0x05] = some (.constr 102 (some 0) true [], [0x05]) := by rfl
+example : (decode [0xd8, 0x66, 0x9f, 0x00, 0x80, 0xff, 0x05]).isSome = true := by decide
+example : Dec.decodeBytes [0xd8, 0x66, 0x83, 0x00, 0x80, 0x05] = none := by rfl
 example : decode [0xd8, 0x66, 0x83, 0x00, 0x80, 0x05] = none := by decide
+example : Dec.decodeBytes [0xd8, 0x66, 0x9f, 0x00, 0x80, 0x05, 0xff] = none := by rfl
 
 end PallasVerif.Props.C07
